@@ -236,6 +236,12 @@ def gen_fuzz_cases(r, tier, sds):
                         cur2 = int.from_bytes(s[1][off2:off2 + w2], "little" if en2 == "<" else "big")
                         ops += ",%s%d:%d:%x" % ("W" if en2 == "<" else "B", off2, w2, M.directed_value(r, lab2, cur2, w2, len(s[1]), s[5]))
                 add(s[0], ops, fmt, "directed:" + kl.split(".")[0].split("/")[-1].split("[")[0][:12])
+    # (b2) every table the parsers walk copied so that it ends exactly at the last byte of the buffer (or sticks out), pointer re-aimed, counts varied
+    for s in sds:
+        if len(s[1]) > (120000 if quick else 3000000):
+            continue
+        for ops, kind in M.reloc_cases(r, s[1], M.reloc_targets(s[1]), 6 if quick else 12):
+            add(s[0], ops, s[2], kind)
     # (c) truncation at every structure boundary of every seed (all deltas for the smallest seed of each format)
     for fmt in fmts:
         small = min(per_fmt[fmt], key=lambda s: len(s[1]))
